@@ -14,6 +14,15 @@ theorem csr_guard_present : Cfg.current.csrGuard = true := by decide
 theorem compact_own_tombstones_last : Cfg.current.compactOwnLast = true := by decide
 /-- the whole-map fix is present: `extend_*_properties_from_store` keep the newest store entry of a key -/
 theorem whole_map_keeps_newest : Generated.extendKeepsNewest = true := by decide
+/-- the property sinking of `GraphEngine::compact` (in `compact` or in the helper it calls) reads
+    `tree.root()` only AFTER the insert loops (regenerated table entry; seed C05-seed1 makes it false) -/
+theorem compact_reads_root_after_inserts : Cfg.current.rootAfterInserts = true := by decide
+/-- the sinking loops replace the store entry of a key (one entry per key: `replace_property_entry`) -/
+theorem compact_sink_replaces : Cfg.current.sinkReplaces = true := by decide
+
+/-- the current source with ANY behaviour of the property B-tree's root: `mv n k` says whether the root
+    page changes (root split) while a compaction inserts `k` entries into a tree of `n` entries -/
+def cfgWithRootSplits (mv : Nat → Nat → Bool) : Cfg := { Cfg.current with rootMoves := mv }
 
 /-- **C05 at full strength**: inserting a compaction anywhere in a history changes no later read.
     NOT provable on this tree: compaction clears the runs and with them every tombstone and every
@@ -30,7 +39,52 @@ def C05_full : Prop :=
 /-! `compactSafe c s` (Proofs/EngineCompactE, decidable): the runs of `s` hold no node tombstone and no
     property removal; no relationship tombstoned by a run is held by an older segment (`segsClear`: the
     tombstones of relationships that live in the runs themselves are fine — build_segment_from_runs
-    applies them exactly like the read path, fix 0624086); the store is empty while there is no root. -/
+    applies them exactly like the read path, fix 0624086).
+    `RootOK s` / `rootOK s` (Proofs/StoreRoot): the page the engine takes for the root of the property tree
+    (`propsRoot`: reads, manifest, checkpoint) IS the root of the tree (`storeRoot`), and there is no entry
+    without a root.  Reads enter the tree at `propsRoot` (`Engine.visibleStore`). -/
+
+/-- **the root of the property store** (class of seed C05-seed1).  For EVERY root-split behaviour of the
+    B-tree (`mv` arbitrary: the root page may change on any insert) and every engine state whose root is
+    right: after `compact` the root the engine keeps in memory, writes into the ManifestSwitch and
+    Checkpoint records and reads through is the root of the tree that holds every old and every sunk
+    entry; every later read sees that whole tree. -/
+theorem compact_root_is_store_root (mv : Nat → Nat → Bool) (s : Engine) (hroot : RootOK s) :
+    let s' := s.compact (cfgWithRootSplits mv)
+    RootOK s' ∧ s'.visibleStore = s'.store ∧
+    (s.runs.isEmpty = false → (∀ key, s'.store.lookup key = (sunkOf s ++ s.store).lookup key) ∧
+      ∃ epoch segs upTo, s'.wal = s.wal ++ [.beginTx s.nextTxid, .manifestSwitch epoch segs s'.storeRoot,
+        .checkpoint upTo epoch s'.storeRoot, .commitTx s.nextTxid]) := by
+  have h' := hroot.compact (cfgWithRootSplits mv) compact_reads_root_after_inserts
+  refine ⟨h', visibleStore_ok h', fun he => ⟨compact_store_lookup _ s he, ?_⟩⟩
+  obtain ⟨st, root, sr, heq⟩ := compact_eq (cfgWithRootSplits mv) s he
+  have hr : root = sr := by
+    have := h'.eq
+    rw [heq] at this
+    exact this
+  rw [heq]
+  exact ⟨_, _, _, by rw [hr]; rfl⟩
+
+/-- the root stays right along every history of transactions and compactions, whatever the root splits -/
+theorem root_ok_along_history (mv : Nat → Nat → Bool) : ∀ (h : List Op) (s : Engine), RootOK s →
+    compactHistSafe (cfgWithRootSplits mv) s h = true →
+    ∃ s', h.foldlM (runOp (cfgWithRootSplits mv)) s = .ok s' ∧ RootOK s' := by
+  intro h
+  induction h with
+  | nil => intro s hs _; exact ⟨s, rfl, hs⟩
+  | cons op h ih =>
+    intro s hs hsafe
+    cases op with
+    | tx ops b =>
+      simp only [compactHistSafe, Bool.and_eq_true] at hsafe
+      obtain ⟨s', h1, h2⟩ := ih _ (runTx_rootOK _ hs ops b) hsafe.2
+      exact ⟨s', by rw [List.foldlM_cons]; exact h1, h2⟩
+    | compact =>
+      simp only [compactHistSafe, Bool.and_eq_true] at hsafe
+      obtain ⟨s', h1, h2⟩ := ih _ (hs.compact (cfgWithRootSplits mv) compact_reads_root_after_inserts) hsafe.2
+      exact ⟨s', by rw [List.foldlM_cons]; exact h1, h2⟩
+    | close => simp [compactHistSafe] at hsafe
+    | reopen => simp [compactHistSafe] at hsafe
 
 /-- **C05 (proved part, state level)**: from EVERY engine state that is `compactSafe` — any number of
     runs with any edges (parallel, self loops, none at all), any properties, edge tombstones that hit
@@ -38,7 +92,7 @@ def C05_full : Prop :=
     enumeration, nor outgoing / incoming neighbours with any type filter (as multisets; a panicking older
     segment panics before and after), nor any single-key node / relationship property read, nor labels,
     external ids or external-id lookup. -/
-theorem C05_partial (s : Engine) (hs : compactSafe Cfg.current s = true) :
+theorem C05_partial (s : Engine) (hs : compactSafe Cfg.current s = true) (hr : rootOK s = true) :
     let s' := s.compact Cfg.current
     s'.nodes = s.nodes ∧ s'.nodesSnap = s.nodesSnap ∧
     (∀ n rel, PermOpt (s'.neighbors n rel) (s.neighbors n rel)) ∧
@@ -46,13 +100,15 @@ theorem C05_partial (s : Engine) (hs : compactSafe Cfg.current s = true) :
     (∀ n k, s'.nodeProp n k = s.nodeProp n k) ∧ (∀ e k, s'.edgeProp e k = s.edgeProp e k) ∧
     s'.nodeLabels = s.nodeLabels ∧ s'.resolveExternal = s.resolveExternal ∧
     s'.lookupInternal = s.lookupInternal ∧ s'.interner = s.interner := by
-  obtain ⟨hnt, hnd, hed, hroot', hclear⟩ := compactSafe_unpack _ s hs
+  obtain ⟨hnt, hnd, hed, hclear⟩ := compactSafe_unpack _ s hs
+  have hroot' := (rootOK_iff s).mp hr
   have hid : (s.compact Cfg.current).idmap = s.idmap ∧ (s.compact Cfg.current).interner = s.interner := by
     unfold Engine.compact; split <;> exact ⟨rfl, rfl⟩
   refine ⟨(compact_nodes_E _ s hnt).1, (compact_nodes_E _ s hnt).2,
     compact_neighbors_E _ s hnt compact_own_tombstones_last (segsClear_out hclear),
     compact_incoming_E _ s hnt compact_own_tombstones_last csr_guard_present (segsClear_in hclear),
-    compact_nodeProp _ s hnd hroot', compact_edgeProp _ s hed hroot', ?_, ?_, ?_, hid.2⟩
+    compact_nodeProp _ compact_reads_root_after_inserts s hnd hroot',
+    compact_edgeProp _ compact_reads_root_after_inserts s hed hroot', ?_, ?_, ?_, hid.2⟩
   · funext n; unfold Engine.nodeLabels; rw [hid.1]
   · funext n; unfold Engine.resolveExternal; rw [hid.1]
   · funext x; unfold Engine.lookupInternal; rw [hid.1]
@@ -67,11 +123,13 @@ theorem whole_map_eq_single_key (s : Engine) :
 
 /-- **C05 (proved part, whole-map reads)**: from every `compactSafe` state `node_properties` and
     `edge_properties` (the whole maps) answer the same value for every key before and after `compact`. -/
-theorem C05_partial_whole_map (s : Engine) (hs : compactSafe Cfg.current s = true) :
+theorem C05_partial_whole_map (s : Engine) (hs : compactSafe Cfg.current s = true) (hr : rootOK s = true) :
     (∀ n k, ((s.compact Cfg.current).nodeProps n).lookup k = (s.nodeProps n).lookup k) ∧
     (∀ e k, ((s.compact Cfg.current).edgeProps e).lookup k = (s.edgeProps e).lookup k) := by
-  obtain ⟨_, hnd, hed, hroot, _⟩ := compactSafe_unpack _ s hs
-  exact ⟨compact_nodeProps _ s hnd hroot, compact_edgeProps _ s hed hroot⟩
+  obtain ⟨_, hnd, hed, _⟩ := compactSafe_unpack _ s hs
+  have hroot := (rootOK_iff s).mp hr
+  exact ⟨compact_nodeProps _ compact_reads_root_after_inserts s hnd hroot,
+    compact_edgeProps _ compact_reads_root_after_inserts s hed hroot⟩
 
 /-! ### history level: compactions at arbitrary positions
 
@@ -101,8 +159,20 @@ def SameReads (s u : Engine) : Prop :=
 theorem C05_partial_hist (h : List Op) (hs : compactHistSafe Cfg.current {} h = true) :
     ∃ s u, Storage.run Cfg.current h = .ok s ∧ Storage.run Cfg.current (dropCompactions h) = .ok u ∧
       SameReads s u := by
-  obtain ⟨s, u, h1, h2, hE⟩ := hist_eqv Cfg.current csr_guard_present compact_own_tombstones_last h {} {} (Eqv.refl _ _) rfl hs
+  obtain ⟨s, u, h1, h2, hE, _⟩ := hist_eqv Cfg.current csr_guard_present compact_own_tombstones_last compact_reads_root_after_inserts h {} {}
+    (Eqv.refl _ _) RootOK.empty' rfl hs
   exact ⟨s, u, h1, h2, hE.reads⟩
+
+/-- `C05_partial_hist` for EVERY root-split behaviour of the property B-tree (the root page may change on
+    any insert of any compaction), together with the fact that the engine's root is the tree's root at
+    the end -/
+theorem C05_partial_hist_any_root_split (mv : Nat → Nat → Bool) (h : List Op)
+    (hs : compactHistSafe (cfgWithRootSplits mv) {} h = true) :
+    ∃ s u, Storage.run (cfgWithRootSplits mv) h = .ok s ∧
+      Storage.run (cfgWithRootSplits mv) (dropCompactions h) = .ok u ∧ SameReads s u ∧ RootOK s := by
+  obtain ⟨s, u, h1, h2, hE, hR⟩ := hist_eqv (cfgWithRootSplits mv) csr_guard_present compact_own_tombstones_last
+    compact_reads_root_after_inserts h {} {} (Eqv.refl _ _) RootOK.empty' rfl hs
+  exact ⟨s, u, h1, h2, hE.reads, hR⟩
 
 /-- **C05 in the shape of `C05_full`**: inserting one compaction anywhere in a history changes no later
     read, when both histories are `compactHistSafe` (either may hold further compactions). -/
@@ -111,8 +181,10 @@ theorem C05_partial_insert (h₁ h₂ : List Op)
     (hs' : compactHistSafe Cfg.current {} (h₁ ++ h₂) = true) :
     ∃ s s', Storage.run Cfg.current (h₁ ++ [.compact] ++ h₂) = .ok s ∧
       Storage.run Cfg.current (h₁ ++ h₂) = .ok s' ∧ SameReads s s' := by
-  obtain ⟨s, u, h1, h2, hE⟩ := hist_eqv Cfg.current csr_guard_present compact_own_tombstones_last _ {} {} (Eqv.refl _ _) rfl hs
-  obtain ⟨s', u', h1', h2', hE'⟩ := hist_eqv Cfg.current csr_guard_present compact_own_tombstones_last _ {} {} (Eqv.refl _ _) rfl hs'
+  obtain ⟨s, u, h1, h2, hE, _⟩ := hist_eqv Cfg.current csr_guard_present compact_own_tombstones_last compact_reads_root_after_inserts _ {} {}
+    (Eqv.refl _ _) RootOK.empty' rfl hs
+  obtain ⟨s', u', h1', h2', hE', _⟩ := hist_eqv Cfg.current csr_guard_present compact_own_tombstones_last compact_reads_root_after_inserts _ {} {}
+    (Eqv.refl _ _) RootOK.empty' rfl hs'
   rw [dropCompactions_insert] at h2
   have : u = u' := by rw [h2] at h2'; cases h2'; rfl
   subst this
@@ -143,8 +215,8 @@ def hSafe : List Op :=
     .tx [.edge 0 R 1, .edge 0 R 1, .edge 1 R 1, .nprop 1 K 2] true,
     .tx [.nprop 1 K 3, .eprop 0 R 1 K 4] true ]
 
-example : ∃ s, Storage.run Cfg.current hSafe = .ok s ∧ compactSafe Cfg.current s = true ∧ s.runs.length = 2 ∧
-    s.segs.length = 1 := ⟨_, rfl, by decide, by decide, by decide⟩
+example : ∃ s, Storage.run Cfg.current hSafe = .ok s ∧ compactSafe Cfg.current s = true ∧ rootOK s = true ∧ s.runs.length = 2 ∧
+    s.segs.length = 1 := ⟨_, rfl, by decide, by decide, by decide, by decide⟩
 
 /-- non-vacuity of the history-level statements: two compactions, transactions between and after -/
 def hSafe2 : List Op := hSafe ++ [ .compact, .tx [.node 12 none, .edge 2 R 0, .nprop 2 K 7] true,
@@ -190,19 +262,20 @@ theorem C05_counterexample_property_removal :
 
 /-! ### the three defects of the pinned tree that are fixed (witnesses stay in the corpus) -/
 
-/-- a value overwritten across two compactions: the single-key read returns the new value; the pinned
-    insertion loop of the whole-map read (`props.insert`, `extendWith false`) returned the OLD one (the scan
-    kept the last = oldest duplicate of the key), the current one (`or_insert`) returns the new one; fixed
-    by c7ee0a6 -/
+/-- a value overwritten across two compactions.  Pinned tree: the store holds BOTH entries of the key and
+    the insertion loop of the whole-map read (`props.insert`, `extendWith false`) returned the OLD one
+    (the scan kept the last = oldest duplicate).  Current tree: the whole-map scan keeps the first entry
+    (c7ee0a6) and the sinking replaces the entry of the key, so the store holds ONE entry. -/
 def hOverwrite : List Op :=
   [ .tx [.node 10 (some A), .nprop 0 K 1] true, .compact, .tx [.nprop 0 K 2] true, .compact ]
 
 theorem C05_counterexample_whole_map_oldest :
-    (∃ s, Storage.run Cfg.current hOverwrite = .ok s ∧ s.nodeProp 0 K = some 2 ∧
-      Store.extendWith false (s.store.fetchNode 0 []) [] = [(K, 1)] ∧ s.nodeProps 0 = [(K, 2)]) ∧
+    (∃ s, Storage.run Cfg.pinned hOverwrite = .ok s ∧ s.store.length = 2 ∧
+      Store.extendWith false (s.store.fetchNode 0 []) [] = [(K, 1)]) ∧
+    (∃ s, Storage.run Cfg.current hOverwrite = .ok s ∧ s.nodeProp 0 K = some 2 ∧ s.store.length = 1 ∧
+      s.nodeProps 0 = [(K, 2)]) ∧
     StorageTriggers.c05TriggerList Cfg.current hOverwrite = [] :=
-  ⟨⟨_, rfl, by decide, by decide, by decide⟩, by decide⟩
-
+  ⟨⟨_, rfl, by decide, by decide⟩, ⟨_, rfl, by decide, by decide, by decide⟩, by decide⟩
 
 /-- pinned tree: an edge-free compaction yields a segment without reverse offsets and
     `incoming_neighbors(0)` panics (csr.rs:67); fixed by f429866 -/
